@@ -418,7 +418,9 @@ Definition fbnd_of (f : face) : fbnd :=
 Definition todict (d : domain) : res fdict :=
   let interior := match d_interiors d with [p] => One (fint_of p) | l => Many (map fint_of l) end in
   do boundary <- match d_boundary d with
-                 | [] => Err EAttr                       (* None.todict() *)
+                 | [] => Ok (Many [])                    (* no external boundary: an empty list (before /repo's
+                                                            "fix: a domain without external boundary can be exported"
+                                                            None.todict() raised AttributeError) *)
                  | [b] => Ok (One (fbnd_of b))
                  | l => Ok (Many (map fbnd_of l))
                  end;
